@@ -383,6 +383,7 @@ type Task struct {
 	curFn     string
 	rndApps   [][2]string
 	pendingLets map[string]Val
+	modelNames map[string]string // get-value term -> witness name
 }
 
 func newTask(e *Eng, name string) *Task {
